@@ -1694,3 +1694,17 @@ V("c02-silent-parent-table-flatnonzero", "C02", "silent", AN, _AN_ND, _AN_ND + "
   more=[(AN, _AN_SEL, "                assignment = np.transpose(self.assignments[i](X[:, self._parents[i]]))\n")], what="parent index arrays prepared once from the stored matrix")
 V("c02-parent-table-rows", "C02", "fire", AN, _AN_ND, _AN_ND + "        self._parents = [np.flatnonzero(self.A[k, :]) for k in range(len(A))]\n",
   more=[(AN, _AN_SEL, "                assignment = np.transpose(self.assignments[i](X[:, self._parents[i]]))\n")], rule="CASES.anm", what="children instead of parents in the prepared table")
+
+# ------------------------------------------------------------------------------- round 11 inspired (C13: a helper that builds the generator by the type of the seed)
+_GE_RNG = "    rng = np.random.default_rng(random_state)\n    # Build intervention sizes\n"
+_GE_DEF = "def dag_avg_deg(p, k, w_min=1, w_max=1, return_ordering=False, random_state=None, debug=False):"
+def _rng_helper(test):
+    return ("def _get_rng(random_state):\n    if isinstance(random_state, np.random.Generator):\n        return random_state\n    elif %s:\n        return np.random.default_rng(random_state)\n"
+            "    return np.random.default_rng()\n\n\n" % test) + _GE_DEF
+for _pid in ("C13", "C12"):
+    V("%s-rng-by-type-int-only" % _pid.lower(), _pid, "fire", GE, _GE_RNG, "    rng = _get_rng(random_state)\n    # Build intervention sizes\n", more=[(GE, _GE_DEF, _rng_helper("isinstance(random_state, int)"))],
+      rule="R1.generator", what="numpy integer seeds (np.int64(3), elements of np.arange) fall through to an unseeded generator")
+    V("%s-silent-rng-by-type-integers" % _pid.lower(), _pid, "silent" if _pid == "C13" else "undecided", GE, _GE_RNG, "    rng = _get_rng(random_state)\n    # Build intervention sizes\n", more=[(GE, _GE_DEF, _rng_helper("isinstance(random_state, (int, np.integer))"))],
+      what="Python and numpy integers are both seeds")
+    V("%s-silent-rng-by-none" % _pid.lower(), _pid, "silent" if _pid == "C13" else "undecided", GE, _GE_RNG, "    rng = _get_rng(random_state)\n    # Build intervention sizes\n", more=[(GE, _GE_DEF, _rng_helper("random_state is not None"))],
+      what="anything but None is a seed")
